@@ -463,10 +463,25 @@ type loopBody struct {
 	// auto invariants (range index bounds ...)
 	auto func(st *State) T
 	node ast.Node
+	// extra contract names available in the loop's clauses
+	names func(st *State) map[string]Val
 }
 
 func (x *Unit) runLoop(pre *State, lb loopBody, fl *flow, label string) *State {
 	k, spec := x.nextLoop()
+	// contract expressions about the loop may mention rangeidx (hidden index of a range loop) and rangekey (map key of the iteration)
+	loopCtx := func(st *State) *specCtx {
+		c := x.bodySpecCtx(st, lb.node)
+		if lb.names != nil {
+			for n, v := range lb.names(st) {
+				c.names[n] = v
+			}
+		}
+		if rk, ok := st.spec["$rangekey"]; ok {
+			c.names["rangekey"] = rk
+		}
+		return c
+	}
 	endLoopN := -1
 	// 1. find the modified set by dry runs to a fixpoint
 	mods := newModset()
@@ -502,7 +517,7 @@ func (x *Unit) runLoop(pre *State, lb loopBody, fl *flow, label string) *State {
 	}
 	// 2. invariants on entry
 	for i, inv := range spec.invs {
-		g := x.specEval(pre, inv.Expr, x.bodySpecCtx(pre, lb.node))
+		g := x.specEval(pre, inv.Expr, loopCtx(pre))
 		x.oblige(pre, fmt.Sprintf("loop%d.inv.entry", k), clauseLabel(inv, i), g.T, lb.node)
 	}
 	// 3. arbitrary iteration
@@ -512,7 +527,7 @@ func (x *Unit) runLoop(pre *State, lb loopBody, fl *flow, label string) *State {
 		x.assume(head, lb.auto(head))
 	}
 	for _, inv := range spec.invs {
-		g := x.specEval(head, inv.Expr, x.bodySpecCtx(head, lb.node))
+		g := x.specEval(head, inv.Expr, loopCtx(head))
 		x.assume(head, g.T)
 	}
 	// the function's declared frame is an automatic loop invariant
@@ -527,7 +542,7 @@ func (x *Unit) runLoop(pre *State, lb loopBody, fl *flow, label string) *State {
 	}
 	var dec0 []T
 	for _, d := range spec.decs {
-		dec0 = append(dec0, x.specEval(head, d.Expr, x.bodySpecCtx(head, lb.node)).T)
+		dec0 = append(dec0, x.specEval(head, d.Expr, loopCtx(head)).T)
 	}
 	it := head.clone()
 	iterSnap := head.clone()
@@ -552,7 +567,7 @@ func (x *Unit) runLoop(pre *State, lb loopBody, fl *flow, label string) *State {
 			x.oblige(bs, fmt.Sprintf("loop%d.auto.preserved", k), "range", lb.auto(bs), lb.node)
 		}
 		for i, inv := range spec.invs {
-			g := x.specEval(bs, inv.Expr, x.bodySpecCtx(bs, lb.node))
+			g := x.specEval(bs, inv.Expr, loopCtx(bs))
 			x.oblige(bs, fmt.Sprintf("loop%d.inv.preserved", k), clauseLabel(inv, i), g.T, lb.node)
 		}
 		if x.fr.parent == nil && x.inlineDepth == 0 {
@@ -562,16 +577,13 @@ func (x *Unit) runLoop(pre *State, lb loopBody, fl *flow, label string) *State {
 			// per-iteration clause: iter(e) is e at the head of this iteration
 			savedIter := x.iterState
 			x.iterState = iterSnap
-			sctx := x.bodySpecCtx(bs, lb.node)
-			if rk, ok := bs.spec["$rangekey"]; ok {
-				sctx.names["rangekey"] = rk // the map key visited by this iteration
-			}
+			sctx := loopCtx(bs)
 			g := x.specEval(bs, sc.Expr, sctx)
 			x.iterState = savedIter
 			x.oblige(bs, fmt.Sprintf("loop%d.step", k), clauseLabel(sc, i), g.T, lb.node)
 		}
 		for i, d := range spec.decs {
-			d1 := x.specEval(bs, d.Expr, x.bodySpecCtx(bs, lb.node)).T
+			d1 := x.specEval(bs, d.Expr, loopCtx(bs)).T
 			x.oblige(bs, fmt.Sprintf("loop%d.decreases", k), clauseLabel(d, i), And(Cmp(">=", dec0[i], IntLit(0)), Cmp("<", d1, dec0[i])), lb.node)
 		}
 	}
@@ -706,6 +718,7 @@ func (x *Unit) execRange(st *State, s *ast.RangeStmt, fl *flow, label string) *S
 			i := h.env[idxObj].T
 			return And(Cmp(">=", i, IntLit(0)), Cmp("<=", i, ln))
 		}
+		lb.names = func(h *State) map[string]Val { return map[string]Val{"rangeidx": h.env[idxObj]} }
 		lb.cond = func(h *State) T { return Cmp("<", h.env[idxObj].T, ln) }
 		lb.body = func(h *State, inner *flow) *State {
 			i := h.env[idxObj]
